@@ -1,7 +1,7 @@
 (* Properties_C11.v -- any pattern string is safely rejected or compiled; matching stays in bounds.
    Statements only; proofs are in ReProps*.v. *)
 From Coq Require Import List NArith ZArith.
-From NV Require Import Bytes GenConsts ReSyntax ReParse ReEmit ReVM ReSem RsetDefs ReProps ReProps2 ReProps3 ReProps5 ReProps6.
+From NV Require Import Bytes GenConsts ReSyntax ReParse ReEmit ReVM ReSem RsetDefs ReProps ReProps2 ReProps3 ReProps5 ReProps6 ReProps7.
 Import ListNotations.
 
 (* for EVERY byte string: if regcomp accepts it, the emitted program (MARK 0, code, MARK 1, MATCH)
@@ -32,15 +32,18 @@ Theorem C11_wf_prog : forall (pat : bytes) (p : prog), regcomp pat = Ok (Some p)
 Proof. exact regcomp_prog_wf. Qed.
 Print Assumptions C11_wf_prog.
 
-(* C11_terminates, full statement: for every accepted pattern and every line, regexec returns without
-   fuel exhaustion.  Proved here: the machine never exhausts its pc fuel (|P|+1 per activation, any
-   depth) on the program of any accepted pattern PROVIDED the atom matcher does not exhaust its own
-   fuel; missing: ratom_match <> NoFuel (chr_icase, brk_match) -- see design.d/C11.md *)
-Theorem C11_terminates_partial : forall St (atom_step : atom -> St -> res (option St)) (mark_step : nat -> St -> St) (pat : bytes) (p : prog),
-  regcomp pat = Ok (Some p) -> (forall a s, atom_step a s <> NoFuel) ->
-  forall d pc s, pc < length (code p) -> fst (rec St atom_step mark_step (code p) d pc s) <> Abort.
-Proof. exact terminates_partial. Qed.
-Print Assumptions C11_terminates_partial.
+(* on the program of EVERY accepted pattern string, for every line, flag value, recursion depth, start pc
+   and start state, the machine (re_rec) returns Found, Fail or an out-of-bounds report -- never Abort:
+   the pc fuel |P|+1 per activation is never exhausted (the pc strictly increases within an
+   activation, the recursion is cut at depth NDEPT) and the atom matcher never exhausts its own fuel
+   (literal comparison |lit|+1, bracket scan |brk|+1, class bodies contain no nested class).
+   Not covered: the start-position loop of regexec has its own fuel |line|+2 (each step advances by
+   uc_len >= 1 until the terminator); its exhaustion would be printed as nofuel by the model driver
+   and is reported by the check. *)
+Theorem C11_terminates : forall (pat : bytes) (p : prog) (flg : Z) (line : bytes), regcomp pat = Ok (Some p) ->
+  forall d pc s, pc < length (code p) -> fst (rec st (atom_step flg line) mark_step (code p) d pc s) <> Abort.
+Proof. exact terminates. Qed.
+Print Assumptions C11_terminates.
 
 (* for EVERY byte string without NUL that ends in ')' -- every string rset_make hands to regcomp does
    (C11_rset_pattern_ends_in_paren) -- the parser returns a tree or a rejection together with the
